@@ -42,7 +42,7 @@ CONSTANTS U1,        \* unary operators of the basis  (sequence of strings, basi
 T == INSTANCE Trees WITH N <- 1, B0 <- <<>>, B1 <- <<>>, B2 <- <<>>, Renumber <- FALSE,
                          st <- [phase |-> "idle"], shape <- <<>>, labels <- <<>>, nparam <- 0
 
-Numbers  == {"2", "3", "0.5", "-1", "1.5"}
+Numbers  == {"2", "3", "0.5", "-1", "1.5", "1.000004"}
 Negative == {"-1"}
 Params   == {"a0", "a1", "a2"}
 Rng(s)   == {s[k] : k \in 1..Len(s)}
